@@ -51,7 +51,7 @@ class Ctx:
     # ------------------------------------------------------------ finishing
     def finish(self, explanation, assumptions, rule_text, proof=None):
         known = load_known()
-        any_viol = any(o['verdict'] == 'violated' for o in self.obs)
+        any_viol = any(o['verdict'] == 'violated' and match_known(known, self.pid, o) is None for o in self.obs)
         for rule, (n, why) in self.minimums.items():
             got = self.count(rule)
             if got < n and not any_viol:     # with a violation reported, dependent obligations are legitimately skipped
